@@ -70,6 +70,77 @@ fn frozen(l: &Ledger, token_account: &Pubkey) -> bool {
     l.data(token_account).and_then(decode::token_account).map(|t| t.state == 2).unwrap_or(false)
 }
 
+/// Active probe on copies of the ledger: a position that has just been locked (or handed over while locked) must refuse
+/// withdrawal and re-ranging, whatever legal encoding its frozen token account has: as it is, re-homed to a bare
+/// base-length token account, re-homed to an account carrying the ImmutableOwner extension (associated-account style).
+fn probe_locked(post: &Ledger, position: &Pubkey, token_account: &Pubkey, salt: u64, idx: usize, cov: &mut Coverage, out: &mut Vec<Violation>) {
+    let Some(p) = post.data(position).and_then(decode::position) else { return };
+    let Some(pool) = post.data(&p.whirlpool).and_then(decode::pool) else { return };
+    let Some(ta) = post.get(token_account).cloned() else { return };
+    let Some(t) = decode::token_account(&ta.data) else { return };
+    if t.state != 2 || t.amount != 1 {
+        return;
+    }
+    let holder = t.owner;
+    let keys = crate::mon::c01::pool_keys(&p.whirlpool, &pool, post);
+    let find_owned = |mint: &Pubkey| -> Option<Pubkey> {
+        post.accts.iter().find(|(_, a)| (a.owner == crate::ix::tok() || a.owner == crate::ix::tok22()) && a.data.len() >= 165 && a.data[..32] == mint.to_bytes() && a.data[32..64] == holder.to_bytes()).map(|(k, _)| *k)
+    };
+    let (Some(oa), Some(ob)) = (find_owned(&pool.mint_a), find_owned(&pool.mint_b)) else {
+        cov.note("c18_locked_probe_skipped_holder_has_no_token_accounts");
+        return;
+    };
+    let sp = pool.tick_spacing;
+    let arr = |tk: i32| crate::ix::pda_tick_array(&p.whirlpool, crate::gen::ta_start(tk, sp));
+    let mut encodings: Vec<(&str, Ledger, Pubkey)> = vec![("as it is", post.clone(), *token_account)];
+    if ta.owner == crate::ix::tok22() {
+        for (label, len) in [("bare base-length account", 165usize), ("account with ImmutableOwner", 170usize)] {
+            if ta.data.len() == len {
+                continue;
+            }
+            let mut d = ta.data[..165].to_vec();
+            if len > 165 {
+                d.push(2); // account type
+                d.extend_from_slice(&7u16.to_le_bytes()); // ImmutableOwner
+                d.extend_from_slice(&0u16.to_le_bytes());
+            }
+            let mut f = post.clone();
+            let k = crate::world::scratch_key(salt, 8100 + len as u64);
+            f.put(k, crate::rt::Account::new(crate::world::rent_min(len), d, ta.owner));
+            // the original no longer holds the token
+            if let Some(a) = f.accts.get_mut(token_account) {
+                let mut od = (*a.data).clone();
+                od[64..72].copy_from_slice(&0u64.to_le_bytes());
+                a.data = std::rc::Rc::new(od);
+            }
+            encodings.push((label, f, k));
+        }
+    }
+    for (label, f, tk) in encodings {
+        let la = crate::ix::LiqAccounts { pool: keys.clone(), authority: holder, position: *position, position_token_account: tk, owner_a: oa, owner_b: ob, ta_lower: arr(p.lower), ta_upper: arr(p.upper) };
+        let (nlo, nhi) = (p.lower, p.upper + sp as i32);
+        let rep = crate::ix::RepositionAccounts { liq: la.clone(), funder: holder, new_ta_lower: arr(nlo), new_ta_upper: arr(nhi) };
+        let attempts: Vec<(&str, crate::rt::Ix)> = vec![
+            ("decrease_liquidity", crate::ix::decrease_liquidity(&la, p.liquidity, 0, 0)),
+            ("decrease_liquidity_v2", crate::ix::decrease_liquidity_v2(&la, p.liquidity.min(1).max(1), 0, 0)),
+            ("reposition_liquidity_v2", crate::ix::reposition_liquidity_v2(&rep, nlo, nhi, p.liquidity, 0, 0, u64::MAX, u64::MAX)),
+        ];
+        for (what, ixn) in attempts {
+            if what == "decrease_liquidity" && (keys.prog_a != crate::ix::tok() || keys.prog_b != crate::ix::tok()) {
+                continue;
+            }
+            let mut ff = f.clone();
+            let r = crate::rt::exec_tx_simple(&mut ff, &crate::rt::Tx { ixs: vec![ixn] });
+            cov.probe("locked_position_probes");
+            cov.eval(format!("locked_probe|{}|{}|ok={}", what, label, r.ok));
+            if r.ok {
+                out.push(viol("locked_position_withdrawn", idx, format!("{} succeeds on the locked position {} when its frozen token is held in a {} ({} bytes)", what, position, label, ff.data(&tk).map(|d| d.len()).unwrap_or(0))));
+                return;
+            }
+        }
+    }
+}
+
 fn bit(bitmap: &[u8; 32], i: u16) -> bool {
     i < 256 && bitmap[(i / 8) as usize] & (1 << (i % 8)) != 0
 }
@@ -261,6 +332,9 @@ impl Monitor for C18 {
                             _ => cov.note("c18_lock_config_missing_or_inconsistent"),
                         }
                         cov.probe("position_locked");
+                        if out.is_empty() {
+                            probe_locked(post, &c.a("position"), &c.a("position_token_account"), ev.salt, ev.idx, cov, &mut out);
+                        }
                     } else if p.liquidity > 0 && !was && code == Some(6058) {
                         out.push(viol("lockable_position_rejected", ev.idx, "position with liquidity refused as not lockable".into()));
                     }
@@ -323,6 +397,9 @@ impl Monitor for C18 {
                                     }
                                 }
                                 cov.probe("locked_position_transferred");
+                                if out.is_empty() {
+                                    probe_locked(post, &c.a("position"), &c.a("destination_token_account"), ev.salt, ev.idx, cov, &mut out);
+                                }
                             }
                             _ => out.push(viol("transfer_locked_state", ev.idx, "destination does not hold the frozen position token".into())),
                         }
